@@ -746,6 +746,19 @@ int structure_words(rng_t* r, uint64_t* w, uint64_t n, unsigned bits) {
       }
       return 8;
     }
+    case 12: {  // the extremes of the domain: a few elements at +-(2^bits - 1) and +-(2^bits - 2)
+      if (bits >= 64 || bits < 2) return 0;
+      const int64_t mx = (int64_t)(((uint64_t)1 << bits) - 1);
+      for (uint64_t i = 0; i < n; i++) {
+        const uint64_t u = mix64(t + i * 0x9E3779B97F4A7C15ull);
+        if ((u & 7) == 0) w[i] = (uint64_t)(((u >> 8) & 1 ? -1 : 1) * (mx - (int64_t)((u >> 9) & 1)));
+      }
+      return 9;
+    }
+    case 13: {  // pairs (v, low 32 bits of v sign-extended): a value followed by what it looks like through a 32-bit key
+      for (uint64_t i = 0; i + 1 < n; i += 2) w[i + 1] = (uint64_t)(int64_t)(int32_t)(uint32_t)w[i];
+      return 10;
+    }
     case 9: {  // zeros at the back
       const uint64_t z = 1 + (t >> 12) % n;
       memset(w + (n - (z < n ? z : n - 1)), 0, (z < n ? z : n - 1) * 8);
